@@ -121,12 +121,33 @@ theorem parsePublicKey_rsaBlob (e n : Nat) (he3 : 3 ≤ e) (hodd : e % 2 = 1) (h
   rw [if_neg (by omega)]
   simp
 
+/-- THE DSA BLOB: any q, g, y and any 1024-bit p -/
+theorem parsePublicKey_dsaBlob (p q g y : Nat) (hp : Keys.bitLen p = 1024)
+    (h1 : mpintLen p < 4294967296) (h2 : mpintLen q < 4294967296) (h3 : mpintLen g < 4294967296)
+    (h4 : mpintLen y < 4294967296) :
+    parsePublicKey (dsaBlob p q g y) = .ok sshDss (.dsa (p : Int) (q : Int) (g : Int) (y : Int)) := by
+  unfold parsePublicKey dsaBlob
+  rw [List.append_assoc, List.append_assoc, List.append_assoc, parseString_str _ (by decide)]
+  have hne : sshDss ≠ sshRsa := by decide
+  simp only [show strBytes "ssh-dss" = sshDss from rfl, hne, if_false, if_true]
+  rw [parseInt_mpint p h1]
+  simp only []
+  rw [parseInt_mpint q h2]
+  simp only []
+  rw [parseInt_mpint g h3]
+  simp only []
+  have hy := parseInt_mpint y h4 []
+  simp only [List.append_nil] at hy
+  rw [hy]
+  simp [hp]
+
 theorem parsePublicKey_ed25519Blob (k : Bytes) (hk : k.length = 32) :
     parsePublicKey (ed25519Blob k) = .ok sshEd25519 (.ed25519 k) := by
   unfold parsePublicKey ed25519Blob
   rw [parseString_str _ (by decide)]
   have hne : sshEd25519 ≠ sshRsa := by decide
-  simp only [show strBytes "ssh-ed25519" = sshEd25519 from rfl, hne, if_false, if_true]
+  have hne2 : sshEd25519 ≠ sshDss := by decide
+  simp only [show strBytes "ssh-ed25519" = sshEd25519 from rfl, hne, hne2, if_false, if_true]
   have h2 := parseString_str k (by omega) []
   simp only [List.append_nil] at h2
   rw [h2]
